@@ -351,16 +351,16 @@ example : importDivs [⟨0, 1, 6, 8⟩] 6
 
 /-! ### bar starts -/
 
-/-- **bars_recovered_partial.** (Partial: proved for scores whose time signatures all have ONE beat type
-    `den0` — any number of changes of the beat count; with mixed beat types the importer's beats→quarters map
-    is compared with the implementation but its error bound is not proved.)
+/-- **bars_recovered_one_beat_type.** The case of ONE beat type `den0` (any number of changes of the beat count), with
+    no condition on the divisions of the written score and none on where the changes fall; the general statement
+    for mixed beat types is `bars_recovered` in Props/C08Mixed.lean.
 
     Let a bar start `rel₁` divisions before its first stored note, whose beat time `B` the file holds with four
     decimals.  The bar start the importer computes from that note (`barTime`) differs from the true one
     (`4·B/den0 − rel₁/divs` quarters after beat 0) by at most `1/(5000·den0)` quarter; hence with importer
     divisions `D < 2500·den0` and a bar line on the division grid, the loaded bar line
     `round(D·(barTime − shift))` is exactly the written one. -/
-theorem bars_recovered_partial (den0 divs : Nat) (hden : 0 < den0) (hdivs : 0 < divs)
+theorem bars_recovered_one_beat_type (den0 divs : Nat) (hden : 0 < den0) (hdivs : 0 < divs)
     (ts : List TSLine) (hts : ts ≠ []) (huni : ∀ x ∈ ts, x.den = den0) (maxTime : Rat)
     (rel₁ : Int) (B : Rat) (n : SNote)
     (hbeat : n.beat = encBeat divs den0 rel₁ + 1)
@@ -412,7 +412,7 @@ example : ∃ n : SNote, n.beat = encBeat 3 4 1 + 1 ∧ n.offset = Frac.ofRat (e
 
 /-- the exporter's side of the same statement: with one beat type the beat time of a note, converted to
     quarters, minus its distance from the bar line is the beat time of the bar line — so the `4·B/den0 − rel₁/divs`
-    of `bars_recovered_partial` IS the written bar start, for every measure, pickup and change of beat count -/
+    of `bars_recovered_one_beat_type` IS the written bar start, for every measure, pickup and change of beat count -/
 theorem written_bar_start (sc : Score) (den0 : Nat) (hden : 0 < den0) (hdivs : 0 < sc.divs)
     (s : TSig) (rest : List TSig) (hts : sc.ts = s :: rest) (huni : ∀ x ∈ sc.ts, x.den = den0) (o ms : Int) :
     4 * sc.beats o / (den0 : Rat) - ((o - ms : Int) : Rat) / (sc.divs : Rat) = 4 * sc.beats ms / (den0 : Rat) := by
@@ -425,12 +425,13 @@ theorem written_bar_start (sc : Score) (den0 : Nat) (hden : 0 < den0) (hdivs : 0
   field_simp
   ring
 
-/-- **onset_roundtrip_partial.** (Partial: one beat type, as `bars_recovered_partial`.)  A note `rel` divisions
+/-- **onset_roundtrip_one_beat_type.** (One beat type, as `bars_recovered_one_beat_type`; general: `onset_roundtrip` in
+    Props/C08Mixed.lean.)  A note `rel` divisions
     after a bar line whose first stored note is `rel₁` divisions after it with beat time `B` (four decimals in the
     file); the importer's shift `shiftHat` is the four-decimal image of the true one (`|shiftHat − shiftQ| ≤
     1/(5000·den0)`: it is `4·dec4(B₀)/den0` for the first note of the piece, or 0).  With importer divisions
     `D < 1250·den0` and the true position on the grid, the loaded onset is exact. -/
-theorem onset_roundtrip_partial (den0 divs : Nat) (hden : 0 < den0) (hdivs : 0 < divs)
+theorem onset_roundtrip_one_beat_type (den0 divs : Nat) (hden : 0 < den0) (hdivs : 0 < divs)
     (ts : List TSLine) (hts : ts ≠ []) (huni : ∀ x ∈ ts, x.den = den0) (maxTime : Rat)
     (rel₁ rel : Int) (B : Rat) (n : SNote)
     (hbeat : n.beat = encBeat divs den0 rel₁ + 1)
@@ -441,7 +442,7 @@ theorem onset_roundtrip_partial (den0 divs : Nat) (hden : 0 < den0) (hdivs : 0 <
     (hgrid : (D : Rat) * ((4 * B / (den0 : Rat) - (rel₁ : Rat) / (divs : Rat)) + (rel : Rat) / (divs : Rat) - shiftQ) = (z : Rat)) :
     roundHalfEven ((D : Rat) * notePos (barTime ts maxTime n) (encBeat divs den0 rel + 1) den0
         (Frac.ofRat (encOffset divs den0 rel)).val shiftHat) = z := by
-  have hbar := (bars_recovered_partial den0 divs hden hdivs ts hts huni maxTime rel₁ B n hbeat hoff hon).1
+  have hbar := (bars_recovered_one_beat_type den0 divs hden hdivs ts hts huni maxTime rel₁ B n hbeat hoff hon).1
   apply position_roundtrip D divs den0 hdivs hden rel (barTime ts maxTime n) shiftHat
     (4 * B / (den0 : Rat) - (rel₁ : Rat) / (divs : Rat)) shiftQ z hgrid
   have hd0 : (0 : Rat) < (den0 : Rat) := by exact_mod_cast hden
